@@ -66,6 +66,35 @@ def run(ck):
                  "every normal exit lies behind the completed wait and a test of the simulator's "
                  "error state", 'M1', 2)
 
+    R8 = ck.rule('R05.8', "saved persistent state is the first and unconditional source: abstract run of "
+                 "init_from_persistent_data - a valid saved state is handed to _restore_state exactly once, "
+                 "whether or not the block already has an output; early events are initialised first "
+                 "(abstract run of SBlock.event)", 'M0', 2)
+    with ck.section('R05.8'):
+        from sa.minieval import MiniEval as _ME8
+        from rules.c06 import _resolver_for as _rf8
+        ap8 = prog.cls('addons:AddonPersistence')
+        ifp8 = ap8.methods.get('init_from_persistent_data')
+        ck.need(R8, ifp8 is not None, "AddonPersistence.init_from_persistent_data not found")
+        bad8 = []
+        for init8 in (False, True):
+            for exp8 in (None, 5):
+                calls8 = []
+                env8 = {'self.is_initialized': lambda init8=init8: init8, 'self.initialized': init8,
+                        'self.expiration': exp8, 'self.circuit.persistent_ts': 100, 'time.time()': 101,
+                        'self.circuit.persistent_dict[self.key]': 'STATE', 'self.circuit.persistent_dict': 'STORAGE',
+                        'self._restore_state': lambda st_, calls8=calls8: calls8.append(st_)}
+                out8 = _ME8(R8, env8, resolve=_rf8(prog, ap8)).run(ifp8.node.body)
+                ck.abstract_cases += 1
+                if out8[0] != 'return' or calls8 != ['STATE']:
+                    bad8.append(f"block {'already' if init8 else 'not yet'} initialised, expiration={exp8!r}: "
+                                f"_restore_state called {len(calls8)} time(s) ({out8[0]})")
+        ck.ob(R8, f"{ifp8.fid} :: abstract run :: unconditional first source", not bad8,
+              "a valid saved state is restored exactly once in all 4 cases" if not bad8 else
+              '; '.join(bad8[:2]) + ": state that is not visible in the output is lost and the stale value is "
+              "written back to the storage", ifp8, ifp8.node)
+        from rules.eventrun import event_run_obligations as _ero8
+        _ero8(ck, R8, ('init',))
     with ck.section('R05.1'):
         from rules.shared import undef_refused_everywhere
         undef_refused_everywhere(ck, R6)
